@@ -216,7 +216,8 @@ pub fn run(prop: &'static str, tier: Tier, seed: u64, findings: &Findings) -> i3
     wc.dyn_tags = true;
     if prop == "C05" {
         // collision bias: identifiers drawn mostly from names that scopes introduce
-        wc.expr.idents = vec!["item", "index", "it", "idx", "x", "a", "b", "list", "i", "k", "mod", "m", "tools", "item2"];
+        wc.expr.idents = vec!["item", "index", "it", "idx", "x", "a", "b", "list", "i", "k", "mod", "m", "tools", "item2", "row$", "i$"];
+        wc.odd_scope_names = true;
         wc.families = vec![crate::model::wxml::AttrKind::Plain, crate::model::wxml::AttrKind::DataColon];
     }
     let check = C04 { prop, cfg: wc, datas: tier.pick(3, 6) };
